@@ -60,12 +60,12 @@ def detStep (epoch : Rat) (hasSink : String → Bool) (actor : String) (line : L
     | .scalar =>
       match parseFloat v with
       | some x => (acc.1, addTo st (some ⟨.scalar, ⟨actor, sd.name⟩, .sc (.num x)⟩) acc.2)
-      | none => (acc.1, addTo st none acc.2)
+      | none => acc
     | .delta =>
       match parseFloat v with
       | some x => (acc.1.set (actor, sd.name) x,
                    addTo st (some ⟨.delta, ⟨actor, sd.name⟩, .sc (.num (x - acc.1.get (actor, sd.name)))⟩) acc.2)
-      | none => (acc.1, addTo st none acc.2)
+      | none => acc
 
 theorem detectLine_eq (epoch : Rat) (sigs : List SigDef) (hasSink : String → Bool) (actor : String)
     (lasts : Lasts) (line : List Char) :
@@ -318,14 +318,14 @@ theorem detStep_key (acc : Lasts × List Emitted) (sd : SigDef) (hs : hasSink sd
       rw [samplesOf_addTo_key _ _ _ _ _ (hk _ _) hnd h0]; simp [Point.toSample, ht]
     | scalar =>
       cases parseFloat v with
-      | none => exact ⟨by first | rfl | trivial, by simp only []; rw [samplesOf_addTo_other _ _ _ _ _ hn, h0]; rfl⟩
+      | none => exact ⟨by first | rfl | trivial, by simp only []; rw [h0]; rfl⟩
       | some x =>
         refine ⟨by first | rfl | trivial, ?_⟩
         simp only []
         rw [samplesOf_addTo_key _ _ _ _ _ (hk _ _) hnd h0]; simp [Point.toSample, ht]
     | delta =>
       cases parseFloat v with
-      | none => exact ⟨by first | rfl | trivial, by simp only []; rw [samplesOf_addTo_other _ _ _ _ _ hn, h0]; rfl⟩
+      | none => exact ⟨by first | rfl | trivial, by simp only []; rw [h0]; rfl⟩
       | some x =>
         refine ⟨Lasts.get_set_same _ _ _, ?_⟩
         simp only []
@@ -671,7 +671,7 @@ theorem detStep_wf (P : Sample → Prop) (epoch : Rat) (hasSink : String → Boo
         rwa [ht] at this
       | scalar =>
         cases parseFloat v with
-        | none => exact allSamples_addTo _ _ _ _ h hn
+        | none => exact h
         | some x =>
           simp only []
           refine allSamples_addTo _ _ _ _ h fun y hy => ?_
@@ -680,7 +680,7 @@ theorem detStep_wf (P : Sample → Prop) (epoch : Rat) (hasSink : String → Boo
           rwa [ht] at this
       | delta =>
         cases parseFloat v with
-        | none => exact allSamples_addTo _ _ _ _ h hn
+        | none => exact h
         | some x =>
           simp only []
           refine allSamples_addTo _ _ _ _ h fun y hy => ?_
